@@ -111,15 +111,15 @@ def run(repo: Repo) -> Result:
                 for sub in ast.walk(e):
                     # negated internal test on the value (or on the import it belongs to)
                     if is_internal_call(f, sub):
-                        fml = to_formula(e, copy_prop(f))
+                        fml = to_formula(e, copy_prop(f, internal_fns))
                         a = atom(f"bool({norm(sub)})")
-                        if implies(conds_formula(cs_, copy_prop(f)), f_not(a)):
+                        if implies(conds_formula(cs_, copy_prop(f, internal_fns)), f_not(a)):
                             ok, why = True, f"guarded by `not {norm(sub, 50)}`"
                     # membership in the set of scanned modules (taken before externals were added)
                     if isinstance(sub, ast.Compare) and len(sub.ops) == 1 and isinstance(sub.ops[0], (ast.In, ast.NotIn)) and norm(sub.left) == argn:
                         setv = dotted(sub.comparators[0])
                         a = atom(f"{argn} in {setv}")
-                        if implies(conds_formula(cs_, copy_prop(f)), f_not(a)) and _is_scanned_set(f, setv):
+                        if implies(conds_formula(cs_, copy_prop(f, internal_fns)), f_not(a)) and _is_scanned_set(f, setv):
                             ok, why = True, f"guarded by `{argn} not in {setv}` ({setv} = the scanned modules)"
             # the ancestors of an import already established external count as external
             if not ok:
@@ -128,7 +128,7 @@ def run(repo: Repo) -> Result:
                     if any(isinstance(it, ast.Call) and isinstance(it.func, ast.Attribute) and it.func.attr == "importee_parent_modules" for it in its):
                         for e, pol in cs_:
                             for sub in ast.walk(e):
-                                if is_internal_call(f, sub) and implies(conds_formula(cs_, copy_prop(f)), f_not(atom(f"bool({norm(sub)})"))):
+                                if is_internal_call(f, sub) and implies(conds_formula(cs_, copy_prop(f, internal_fns)), f_not(atom(f"bool({norm(sub)})"))):
                                     ok, why = True, "ancestors of an import established to be external"
             res.add(
                 "C10.R1",
@@ -165,7 +165,7 @@ def run(repo: Repo) -> Result:
         ok = False
         for e, pol in cs_:
             for sub in ast.walk(e):
-                if is_internal_call(cm, sub) and implies(conds_formula(cs_, copy_prop(cm)), f_not(atom(f"bool({norm(sub)})"))):
+                if is_internal_call(cm, sub) and implies(conds_formula(cs_, copy_prop(cm, internal_fns)), f_not(atom(f"bool({norm(sub)})"))):
                     ok = True
         res.add(
             "C10.R3",
